@@ -137,6 +137,7 @@ func runC10(c *Ctx) {
 	c10R5(c)
 	c10R7(c)
 	c10R8(c)
+	c07R4As(c, c.R.Rule("R9", "K3 (= C07.R4) the DLQ's fatal causes: in both engines a nack the window refuses is a fatal error when the DLQ is enabled, and a v2 DLQ write failure — a failed call or a negative per-record ack — is fatal", 6))
 }
 
 // c10R8: a stop issued while the run is parked in the recovery back-off wins
